@@ -146,7 +146,7 @@ PROPS["C14"] = dict(
     rule="E-fault over the C06 catalogue: for each value, EVERY strict prefix of its serialization (byte granularity; for values above 4 KiB quick keeps every byte in the first/last 64 and every 8th byte between) "
          "must make load return Err, through a plain reader and a 3-byte short-read reader; skip_option over every prefix of Some(value) (and of Option values as serialized) must return Err unless complete, in which case the reader "
          "stands exactly at the end; every write budget 0..=size with a sink that accepts the budget in <=3-byte chunks (and in one piece) and then fails must make serialize return that error; every 8-byte truncation of the file "
-         "must make the mapped view of the value be refused. Buffered writers: IntVectorWriter / RawVectorWriter scenarios under EVERY RLIMIT_FSIZE limit (step 8 bytes plus unaligned ones, SIGXFSZ ignored) must end in Err from new, "
+         "must make the mapped view of the value be refused; serialize_to(file) under every RLIMIT_FSIZE limit (8-byte steps and unaligned neighbours) must return Err or leave the complete file, and load_from of every truncated file must return Err. Buffered writers: IntVectorWriter / RawVectorWriter scenarios under EVERY RLIMIT_FSIZE limit (step 8 bytes plus unaligned ones, SIGXFSZ ignored) must end in Err from new, "
          "the documented push panic, or Err from close - or report success with a byte-identical complete file. Each fault point is a distinct case by construction.",
     bounds={"quick": "144-value catalogue (52 312 byte fault points x load/skip/budget), 275 map truncations, 45 writer scenarios x every limit (4 326 limits below the final size)", "thorough": "extended catalogue, every byte of every value, 75 writer scenarios"},
     require_counters={"quick": {"writer_limits_below_final_size": 500, "mapped_truncations": 100}, "thorough": {"writer_limits_below_final_size": 500, "mapped_truncations": 100}},
